@@ -236,6 +236,21 @@ fn main() {
     // quiet panic hook: panics in the code under test are data (logged as events)
     if std::env::var("DRV_PANICS").is_err() { std::panic::set_hook(Box::new(|_| {})); }
     let o = parse();
+    // hang watchdog: a call into the code under test that does not return is a finding, not a
+    // reason to block the check (exit code 3; the orchestrator reports the running case)
+    std::thread::spawn(|| {
+        let mut last = 0u64;
+        let mut idle = 0u32;
+        loop {
+            std::thread::sleep(std::time::Duration::from_secs(1));
+            let h = tr::HEARTBEAT.load(std::sync::atomic::Ordering::Relaxed);
+            if h == last { idle += 1; } else { idle = 0; last = h; }
+            if idle >= 40 {
+                eprintln!("HANG: no progress for 40 s inside the code under test");
+                std::process::exit(3);
+            }
+        }
+    });
     let name = o.scenario.clone();
     let mut tr = Tr::create(&o.out, &name, o.shards);
     tr.only = o.only.clone();
